@@ -394,3 +394,60 @@ impl CoreProbe {
 pub fn new_frame_buffer() -> FrameBuffer {
     FrameBuffer::new()
 }
+
+// ---------------------------------------------------------------------------------
+// HandshakeProbe: the real HandshakeState::process over a real Inner, one frame at a
+// time, with what it leaves behind (frames queued, seal flag, heartbeat timers).
+// ---------------------------------------------------------------------------------
+use super::handshake_state::HandshakeState;
+use crate::connection_options::ConnectionOptions;
+use crate::Auth;
+
+pub struct HandshakeProbe {
+    inner: Inner,
+    state: HandshakeState<Auth>,
+}
+
+impl HandshakeProbe {
+    pub fn new(options: ConnectionOptions<Auth>) -> HandshakeProbe {
+        let mut inner = Inner::new(HeartbeatTimers::default(), 1);
+        // only what the handshake itself queues is of interest
+        inner.outbuf.clear();
+        HandshakeProbe {
+            inner,
+            state: HandshakeState::Start(options),
+        }
+    }
+
+    pub fn frame(&mut self, frame: AMQPFrame) -> Result<()> {
+        self.state.process(&mut self.inner, frame)
+    }
+
+    /// 0 Start, 1 Secure, 2 Tune, 3 Open, 4 ServerClosing, 5 Done
+    pub fn state_code(&self) -> u8 {
+        match &self.state {
+            HandshakeState::Start(_) => 0,
+            HandshakeState::Secure(_, _) => 1,
+            HandshakeState::Tune(_, _) => 2,
+            HandshakeState::Open(_, _) => 3,
+            HandshakeState::ServerClosing(_) => 4,
+            HandshakeState::Done(_, _) => 5,
+        }
+    }
+
+    pub fn outbuf(&self) -> Vec<u8> {
+        self.inner.outbuf[0..].to_vec()
+    }
+
+    pub fn sealed(&self) -> bool {
+        self.inner.are_writes_sealed()
+    }
+
+    /// (rx, tx) intervals in ms of the heartbeat timers, if they were started
+    pub fn heartbeat_intervals_ms(&self) -> Option<(u64, u64)> {
+        self.inner
+            .heartbeats
+            .verif_intervals()
+            .map(|(rx, tx)| (rx.as_millis() as u64, tx.as_millis() as u64))
+    }
+}
